@@ -158,7 +158,7 @@ pub fn channel_details(f: &FirstHop) -> ChannelDetails {
 		funding_redeem_script: None,
 		channel_type: None,
 		short_channel_id: Some(f.scid),
-		outbound_scid_alias: None,
+		outbound_scid_alias: f.alias,
 		inbound_scid_alias: None,
 		channel_value_satoshis: 0,
 		user_channel_id: 0,
